@@ -6,6 +6,7 @@ def _op_in(*ops):
 
 PROPS = {
     "C01": {
+        "translators": ["translator_c01"],
         "generators": [("f64", 3000, 60000), ("c01", 4000, 120000)],
         "modules": ["S2.CellID", "S2.Hilbert", "S2.STUV", "S2.F64"],
         "rule": "cell ids: exhaustive levels 0-3 (thorough 0-5) plus structured random cells of every level whose (i,j) is drawn "
@@ -17,6 +18,7 @@ PROPS = {
         "assumptions": ["VertexNeighbors is called with level < cell level (C++ contract)"],
     },
     "C11": {
+        "translators": ["translator_c01"],
         "generators": [("c11", 6000, 200000), ("c11b", 600, 20000)],
         "modules": ["S2.CellID", "S2.CellUnion", "S2.CellIndex", "S2.Intersect"],
         "rule": "adversarial multisets of valid cell ids (duplicates, complete / incomplete sibling groups, cascades over several "
@@ -64,6 +66,7 @@ PROPS = {
     ],
     },
     "C09": {
+        "translators": ["translator_c01"],
         "generators": [("c09", 3000, 60000)],
         "modules": ["S2.Codec.Prim", "S2.Codec.Points", "S2.Codec.Types", "S2.STUV", "S2.F64"],
         "rule": "values of all nine encodable types built through the public constructors: points/caps/rects with special floats "
@@ -130,6 +133,7 @@ PROPS = {
         "partial": ["label: partial (protocol proved for all N and interleavings; footprint of the Go code by race detector)"],
     },
     "C02": {
+        "translators": ["translator_c01"],
         "generators": [("f64", 3000, 60000), ("c02", 6000, 160000), ("c02tiny", 16000, 400000)],
         "modules": ["S2.F64", "S2.STUV", "S2.Exact", "S2.Pred"],
         "rule": "unit-length triples / (x,a,b) / (x,y,r) built to sit on the decision boundaries: c = rn(s*a+t*b) +-2 ulps, "
